@@ -129,9 +129,13 @@ def check(ctx):
                 ctx.ob("C15.d", "mode:lookahead-error-is-returned", p.end[0] == "return" and variant_of(ex, p, p.end[1]) == "Err", "-> %s" % p.end[0], cp.loc())
             elif lv == "Ok":
                 seen.add("la-ok")
+                # (that the compiled lookahead is attached to its own pattern — directly or through a list of pairs filled
+                # here and attached in a second loop — is kernel.lookahead_wiring, emitted below under C15.d as well; here: the
+                # Ok payload is not dropped)
                 al = p.calls(r"CompiledDfa::add_lookahead$")
-                ok = len(al) == 1 and al[0][3][2] == ("field", ("downcast", la[0][4], "Ok"), "0") and "Pattern::terminal_id" in S.fstr(al[0][3][1]) and "item@" in S.fstr(al[0][3][1])
-                ctx.ob("C15.d", "mode:lookahead-attached-to-its-own-pattern", ok, "add_lookahead(%s, ..)" % (S.vstr(al[0][3][1])[:60] if al else None), cp.loc())
+                okp = ("field", ("downcast", la[0][4], "Ok"), "0")
+                kept = (len(al) == 1 and al[0][3][2] == okp) or any(e[0] == "call" and re.search(r"Vec::<.*>::push$", e[2]) and S.mentions(e[3][1], lambda x: x == okp) for e in p.events)
+                ctx.ob("C15.d", "mode:compiled-lookahead-is-kept", bool(kept), "the compiled lookahead is %s" % ("attached / collected" if kept else "dropped"), cp.loc())
     ctx.ob("C15.d", "mode:all-outcomes", {"nfa-err", "la-err", "la-ok"} <= seen, "outcomes %s" % sorted(seen), cp.loc())
     from . import kernel
     kernel.lookahead_wiring(ctx, ("C15.d",))
@@ -144,6 +148,12 @@ def check(ctx):
         ex, paths = run_fn(fn, F, BaseModel(), max_paths=5000, desugar=r".|collect")
         seen = set()
         tag = "Vec" if "Vec" in pat else "slice"
+        from .common import delegates_to
+        pats_ = (r"ScannerImpl as std::convert::TryFrom<std::vec::Vec<scanner_mode::ScannerMode>>>::try_from$", r"ScannerImpl as std::convert::TryFrom<&\[scanner_mode::ScannerMode\]>>::try_from$")
+        dg = delegates_to(F, fn, F.fn([x for x in pats_ if x != pat][0]))
+        if dg is not None:
+            ctx.ob("C15.d", "scanner:%s:all-outcomes" % tag, True, "delegates (result returned as it is): " + dg, fn.loc())
+            continue
         for p in paths:
             cm = p.calls(r"CompiledScannerMode::try_from_scanner_mode$")
             mc = p.calls(r"CharacterClassRegistry::create_match_char_class$")
